@@ -116,6 +116,7 @@ def main(argv=None):
     pid = a.pid.upper()
     os.environ.setdefault('PYTHONHASHSEED', '0')
     ctx = Ctx(pid, a.tier, seed, a.repo, a.replay)
+    os.environ.setdefault('ZV_PMAP_TIMEOUT', '1800' if a.tier == 'quick' else '9000')
     try:
         from . import env
         env.setup(a.repo)
@@ -129,7 +130,17 @@ def main(argv=None):
         return rc
     except SystemExit:
         raise
-    except BaseException:
+    except BaseException as ex:
+        from . import par
+        if isinstance(ex, par.Hang):
+            # calls into the code under test never returned: on the unchanged tree every call returns
+            ctx.violation({'kind': 'hang'}, 'calls into the code under test never returned: %s' % ex)
+            for v in ctx.violations:
+                print('VIOLATION property=%s replay=%s' % (pid, v['replay']))
+                print('  signature: %s' % json.dumps(v['signature'], sort_keys=True))
+                print('  %s' % v['description'][:300])
+            print('%s tier=%s seed=%d: VIOLATIONS in %.1fs' % (pid, a.tier, seed, time.time() - ctx.t0))
+            return 1
         traceback.print_exc()
         print('MACHINERY-FAILURE property=%s (exit 2; not a verdict)' % pid)
         return 2
